@@ -21,6 +21,8 @@ fn sources(seed: u64, n: usize, dirs: &[String]) -> Vec<(String, String)> {
     out
 }
 
+static ASM_ONLY: std::sync::atomic::AtomicBool = std::sync::atomic::AtomicBool::new(false);
+
 pub fn cmd_native_x86(seed: u64, n: usize, out: &mut dyn Write, dirs: &[String]) {
     let work = std::path::PathBuf::from(format!("{}/.cache/native/{}-{}", pipe::verif_root(), seed, std::process::id()));
     let _ = std::fs::remove_dir_all(&work);
@@ -30,6 +32,12 @@ pub fn cmd_native_x86(seed: u64, n: usize, out: &mut dyn Write, dirs: &[String])
         for j in 0..n.max(2) {
             let Some((lc, text)) = crate::c14probe::probe("x86", j % 2) else { continue };
             let name = format!("c14probe:{}:{}", if j % 2 == 0 { "clause-clause" } else { "table-clause" }, lc);
+            if native_case(&work, k, &name, &text, seed, out) { k += 1; }
+        }
+    } else if dirs.first().map(|d| d == "asmonly").unwrap_or(false) {
+        // C14: the printed text is only assembled (GNU as), not linked or run
+        ASM_ONLY.store(true, std::sync::atomic::Ordering::Relaxed);
+        for (name, text) in sources(seed, n, &dirs[1..]) {
             if native_case(&work, k, &name, &text, seed, out) { k += 1; }
         }
     } else {
@@ -54,14 +62,15 @@ fn native_case(work: &std::path::Path, k: usize, name: &str, text: &str, seed: u
             let a = compile::<axcut2x86_64::Backend, _, _, _>(lin);
             axcut2x86_64::into_routine::into_x86_64_routine(a).print_to_string(None)
         }) { Ok(t) => t, Err(_) => return false };
-        let built = native::build(work, &format!("p{k}"), &asm, nargs);
+        let asm_only = ASM_ONLY.load(std::sync::atomic::Ordering::Relaxed);
+        let built = if asm_only { native::assemble_only(work, &format!("p{k}"), &asm) } else { native::build(work, &format!("p{k}"), &asm, nargs) };
         let mut rng = crate::rng::Rng::new(seed.wrapping_add(k as u64));
         let mut res = String::new();
         match &built.assembler_errors {
             Some(e) => { res.push_str(&format!("(asm-error {})", quote(e))); }
             None => {
                 res.push_str("asm-ok");
-                for t in 0..4 {
+                for t in 0..(if asm_only { 0 } else { 4 }) {
                     let args: Vec<i64> = (0..nargs).map(|a| match t { 0 => (a as i64) + 1, 1 => rng.below(20) as i64, 2 => -(rng.below(20) as i64), _ => rng.i64_interesting() }).collect();
                     let r = native::run(&built.bin, &args, 5000);
                     let argl = args.iter().map(|a| a.to_string()).collect::<Vec<_>>().join(" ");
